@@ -28,6 +28,9 @@ pub enum C17Doc {
         damage: Vec<(usize, Damage)>,
         /// patch file absent / replaced by a directory
         missing: Option<(usize, bool)>,
+        /// regular files placed where the reference semantics needs a directory (relative paths)
+        #[serde(default)]
+        obstruct: Vec<String>,
     },
     Boot { dir_exists: bool, ver: Option<Bytes> },
     Launcher { prefix: usize, url_kind: u8, url: String, terminated: bool, suffix: usize, missing: bool, damage: Vec<Damage> },
@@ -36,7 +39,7 @@ pub enum C17Doc {
 
 pub const FORMATS: [&str; 8] = ["cfg", "exl", "fiin", "chardat", "gearsets", "log", "patchlist_boot", "patchlist_game"];
 
-pub const PROBES: [&str; 30] = [
+pub const PROBES: [&str; 31] = [
     "patch_scenario",
     "patch_io_fault_fired",
     "patch_truncated",
@@ -67,6 +70,7 @@ pub const PROBES: [&str; 30] = [
     "buffer_undamaged_parsed",
     "sticky_fault",
     "systematic_truncation_sweep",
+    "target_directory_obstructed_by_file",
 ];
 
 const SAMPLES: [(&str, &str); 9] = [
@@ -349,7 +353,7 @@ fn draw_io_faults(r: &mut Rng, profile: &[[u32; 10]], n_patches: usize) -> Vec<I
             Call::Read => *r.pick(&[Hostile::Eio, Hostile::EarlyEof]),
             Call::Write => *r.pick(&[Hostile::Enospc, Hostile::Eio]),
             Call::SetLen => *r.pick(&[Hostile::Eio, Hostile::Enospc]),
-            Call::CreateDirAll => *r.pick(&[Hostile::Eacces, Hostile::Erofs, Hostile::Enospc]),
+            Call::CreateDirAll => *r.pick(&[Hostile::Eacces, Hostile::Erofs, Hostile::Enospc, Hostile::Eexist]),
             Call::RemoveFile => *r.pick(&[Hostile::Eacces, Hostile::Erofs, Hostile::Eio]),
             Call::RemoveDirAll => *r.pick(&[Hostile::Eacces, Hostile::Eio]),
             Call::Metadata => *r.pick(&[Hostile::Enoent, Hostile::Eacces]),
@@ -390,8 +394,31 @@ pub fn generate(seed: u64, tier: Tier) -> Doc {
             let Body::C03(mut base) = base_doc.body else { unreachable!() };
             let mut dmg: Vec<(usize, Damage)> = vec![];
             let mut missing = None;
+            let mut obstruct: Vec<String> = vec![];
             let np = base.patches.len();
-            match r.below(10) {
+            match r.below(11) {
+                10 => {
+                    // an unwritable target made of tree state: a file sits where a directory
+                    // has to be created
+                    let before = c03::initial_model(&base.pre, &base.pre_dirs);
+                    let mut after = before.clone();
+                    for p in &base.patches {
+                        for c in p {
+                            after.apply(c);
+                            after.settle();
+                        }
+                    }
+                    let cands: Vec<String> = after
+                        .dirs
+                        .iter()
+                        .filter(|d| !before.dirs.contains(*d) && !after.unconstrained.contains(*d) && !after.removed_dirs.contains(*d))
+                        .filter(|d| !before.files.keys().any(|f| f.starts_with(&format!("{}/", d))))
+                        .cloned()
+                        .collect();
+                    if !cands.is_empty() {
+                        obstruct.push(r.pick(&cands).clone());
+                    }
+                }
                 0..=3 => {
                     let prof = profile_patch(seed, &benign, &base);
                     io_faults = draw_io_faults(&mut r, &prof, np);
@@ -435,7 +462,7 @@ pub fn generate(seed: u64, tier: Tier) -> Doc {
                 let prof = profile_patch(seed, &benign, &base);
                 io_faults = draw_io_faults(&mut r, &prof, np);
             }
-            C17Doc::Patch { base, damage: dmg, missing }
+            C17Doc::Patch { base, damage: dmg, missing, obstruct }
         }
         10 => {
             io_faults = if r.chance(1, 2) {
@@ -603,7 +630,7 @@ pub fn directed() -> Vec<Doc> {
         if in_payload && at % 61 != 0 {
             continue;
         }
-        push(C17Doc::Patch { base: small.clone(), damage: vec![(0, Damage::Truncate { at })], missing: None }, &mut out);
+        push(C17Doc::Patch { base: small.clone(), damage: vec![(0, Damage::Truncate { at })], missing: None, obstruct: vec![] }, &mut out);
     }
     for f in &enc.fields {
         let orig = damage::read_field(&enc.bytes, f);
@@ -613,16 +640,20 @@ pub fn directed() -> Vec<Doc> {
                     base: small.clone(),
                     damage: vec![(0, Damage::Field { name: f.name.clone(), off: f.off, width: f.width, be: f.be, value: v })],
                     missing: None,
+                    obstruct: vec![],
                 },
                 &mut out,
             );
         }
     }
+    push(C17Doc::Patch { base: small.clone(), damage: vec![], missing: None, obstruct: vec!["mk/a".into()] }, &mut out);
+    push(C17Doc::Patch { base: small.clone(), damage: vec![], missing: None, obstruct: vec!["mk".into()] }, &mut out);
+    push(C17Doc::Patch { base: small.clone(), damage: vec![], missing: None, obstruct: vec!["boot".into()] }, &mut out);
     let mut no_t = small.clone();
     no_t.patches[0].retain(|c| !matches!(c, Chunk::Target { .. }));
-    push(C17Doc::Patch { base: no_t, damage: vec![], missing: None }, &mut out);
-    push(C17Doc::Patch { base: small.clone(), damage: vec![], missing: Some((0, false)) }, &mut out);
-    push(C17Doc::Patch { base: small.clone(), damage: vec![], missing: Some((0, true)) }, &mut out);
+    push(C17Doc::Patch { base: no_t, damage: vec![], missing: None, obstruct: vec![] }, &mut out);
+    push(C17Doc::Patch { base: small.clone(), damage: vec![], missing: Some((0, false)), obstruct: vec![] }, &mut out);
+    push(C17Doc::Patch { base: small.clone(), damage: vec![], missing: Some((0, true)), obstruct: vec![] }, &mut out);
     // a sticky ENOSPC on the first target write, an unwritable target, an unremovable file
     for (call, nth, kind, sticky) in [
         (Call::Write, 0u32, Hostile::Enospc, true),
@@ -641,7 +672,7 @@ pub fn directed() -> Vec<Doc> {
             cfg: Cfg::Hostile,
             benign: Benign::quiet(),
             io_faults: vec![IoFault { op: 0, call, nth, kind, sticky, path_contains: None }],
-            body: Body::C17(C17Doc::Patch { base: small.clone(), damage: vec![], missing: None }),
+            body: Body::C17(C17Doc::Patch { base: small.clone(), damage: vec![], missing: None, obstruct: vec![] }),
         };
         if call == Call::RemoveDirAll {
             if let Body::C17(C17Doc::Patch { base, .. }) = &mut d.body {
@@ -691,8 +722,19 @@ fn parse_buffer(format: &str, bytes: &[u8]) -> bool {
 pub fn run(doc: &Doc, body: &C17Doc, trace: bool) -> RunResult {
     let mut h = Harness::new("C17", doc.seed, PROBES.len(), trace);
     match body {
-        C17Doc::Patch { base, damage, missing } => {
+        C17Doc::Patch { base, damage, missing, obstruct } => {
             h.probe(0);
+            // an obstruction is an ordinary pre-existing file, known to the reference model too
+            let original = base;
+            let mut with_obstruction = base.clone();
+            for o in obstruct {
+                if !with_obstruction.pre.iter().any(|e| e.path == *o) && !with_obstruction.pre_dirs.contains(o) {
+                    with_obstruction.pre.push(super::c04::FileEnt { path: o.clone(), data: Bytes::Hex(hex(b"in the way")) });
+                    h.at_rest[8] += 1;
+                    h.probe(30);
+                }
+            }
+            let base = &with_obstruction;
             c03::install_pre(&h, base);
             // store the patches, then damage them at rest
             let mut intact = vec![true; base.patches.len()];
@@ -728,7 +770,7 @@ pub fn run(doc: &Doc, body: &C17Doc, trace: bool) -> RunResult {
                     h.probe(6);
                     intact[pi] = false;
                 }
-                if !c03::well_formed(&C03Doc { patches: vec![chunks.clone()], ..base.clone() }) {
+                if !c03::well_formed(&C03Doc { patches: vec![chunks.clone()], ..original.clone() }) {
                     // shrinking may leave the constrained space: no functional demand then
                     intact[pi] = false;
                 }
@@ -760,7 +802,7 @@ pub fn run(doc: &Doc, body: &C17Doc, trace: bool) -> RunResult {
             let pr = run_patches_c17(&mut h, base, &intact, missing);
             let fired: Vec<u64> = h.fs.stats(|s| s.fired.iter().map(|r| r[6]).collect());
             let hostile_after = h.fs.stats(|s| s.hostile_fired.iter().sum::<u64>());
-            let under_fault = hostile_after > hostile_before || !damage.is_empty() || missing.is_some();
+            let under_fault = hostile_after > hostile_before || !damage.is_empty() || missing.is_some() || !obstruct.is_empty();
             if hostile_after > hostile_before {
                 h.probe(1);
             }
@@ -901,11 +943,16 @@ fn run_patches_c17(h: &mut Harness, base: &C03Doc, intact: &[bool], missing: &Op
 pub fn shrink(b: &C17Doc) -> Vec<C17Doc> {
     let mut out = vec![];
     match b {
-        C17Doc::Patch { base, damage, missing } => {
+        C17Doc::Patch { base, damage, missing, obstruct } => {
+            for i in 0..obstruct.len() {
+                let mut o = obstruct.clone();
+                o.remove(i);
+                out.push(C17Doc::Patch { base: base.clone(), damage: damage.clone(), missing: missing.clone(), obstruct: o });
+            }
             for i in 0..damage.len() {
                 let mut d = damage.clone();
                 d.remove(i);
-                out.push(C17Doc::Patch { base: base.clone(), damage: d, missing: missing.clone() });
+                out.push(C17Doc::Patch { base: base.clone(), damage: d, missing: missing.clone(), obstruct: obstruct.clone() });
             }
             // structural shrinking of the patch invalidates byte offsets of stored damage, so it
             // is only tried when no at-rest damage is present
@@ -914,19 +961,19 @@ pub fn shrink(b: &C17Doc) -> Vec<C17Doc> {
                     if missing.map(|(p, _)| p >= nb.patches.len()).unwrap_or(false) {
                         continue;
                     }
-                    out.push(C17Doc::Patch { base: nb, damage: vec![], missing: missing.clone() });
+                    out.push(C17Doc::Patch { base: nb, damage: vec![], missing: missing.clone(), obstruct: obstruct.clone() });
                 }
             } else {
                 // pre-existing tree only
                 for i in 0..base.pre.len() {
                     let mut nb = base.clone();
                     nb.pre.remove(i);
-                    out.push(C17Doc::Patch { base: nb, damage: damage.clone(), missing: missing.clone() });
+                    out.push(C17Doc::Patch { base: nb, damage: damage.clone(), missing: missing.clone(), obstruct: obstruct.clone() });
                 }
                 if base.via != Via::Direct {
                     let mut nb = base.clone();
                     nb.via = Via::Direct;
-                    out.push(C17Doc::Patch { base: nb, damage: damage.clone(), missing: missing.clone() });
+                    out.push(C17Doc::Patch { base: nb, damage: damage.clone(), missing: missing.clone(), obstruct: obstruct.clone() });
                 }
             }
         }
